@@ -46,6 +46,9 @@ func TestMain(m *testing.M) { evid.Main(m, "C03", rule, assumptions) }
 type H struct {
 	Ops []string `json:"ops"`
 	Ret string   `json:"ret,omitempty"`
+	// Shape "hf": the handler is a value of type http.HandlerFunc (which cannot
+	// call Next and returns nothing; its program only writes or panics).
+	Shape string `json:"shape,omitempty"`
 }
 
 type Case struct {
@@ -330,6 +333,27 @@ func realFrom(c Case, base int) (res result) {
 					panic(harnessPanic{i})
 				}
 			}
+		}
+		if h.Shape == "hf" {
+			return http.HandlerFunc(func(w http.ResponseWriter, r *http.Request) {
+				ev("enter %d", i)
+				for _, op := range h.Ops {
+					switch {
+					case op[0] == 's':
+						var code int
+						fmt.Sscanf(op[1:], "%d", &code)
+						w.WriteHeader(code)
+					case op == "b":
+						_, _ = w.Write([]byte(fmt.Sprintf("h%d;", i)))
+					case op == "p":
+						ev("panic %d", i)
+						panic(harnessPanic{i})
+					default:
+						panic("harness: op " + op + " in an http.HandlerFunc program")
+					}
+				}
+				ev("exit %d", i)
+			})
 		}
 		switch h.Ret {
 		case "str":
@@ -724,6 +748,17 @@ func genH(t *rapid.T) H {
 		}
 	}
 	h.Ret = []string{"", "", "", "", "str", "empty", "nilerr", "err"}[rapid.IntRange(0, 7).Draw(t, "ret")]
+	if rapid.IntRange(0, 7).Draw(t, "hf") == 0 {
+		// a handler of type http.HandlerFunc: what is left of the program are its
+		// writes (and a panic)
+		var ops []string
+		for _, op := range h.Ops {
+			if op == "b" || op[0] == 's' || op == "p" {
+				ops = append(ops, op)
+			}
+		}
+		h = H{Ops: ops, Shape: "hf"}
+	}
 	return h
 }
 
